@@ -20,13 +20,13 @@ def main():
     tier = a.tier if a.tier in ('quick', 'thorough') else 'quick'
     seed = int(os.environ.get('VERIF_SEED', '0') or 0)
     prop = a.prop.upper()
+    core.import_chi()
     try:
         mod = importlib.import_module('props.' + prop.lower())
     except ImportError:
         print('no check for ' + prop)
         traceback.print_exc()
         return 2
-    core.import_chi()
     ctx = core.Ctx(prop, tier, seed)
     if a.replay:
         with open(a.replay) as fh:
